@@ -1,4 +1,4 @@
-import RsMatterVerif.Lemmas.BtpLive
+import RsMatterVerif.Lemmas.BtpFair
 import RsMatterVerif.Lemmas.BtpRing
 /-!
 # C18 — BTP delivers each message intact, once and in order, or fails cleanly
@@ -510,16 +510,13 @@ example :
     l.a.submitted.length = 6 ∧ l.b.submitted.length = 5 ∧ l.a.e.s.send.level = 5 ∧ l.b.e.s.send.level = 5 := by
   decide
 
-/-- **Delivery under a fair schedule** (liveness), stated: for every schedule `ops` from two fresh
-ends and every message accepted by `send` at `x` (index `k` of `submitted`), every *fair*
-continuation eventually lets the other end fetch it — where a continuation `f : Nat → Op` is fair
-if every queue is drained (`deliver y` occurs infinitely often for both `y`), every pump runs after
-the acknowledgement timers have fired (`tick 15` followed by `poll y` infinitely often) and the
-applications fetch (`fetch y cap` with `cap ≥ 1232` infinitely often).
-Proved towards it: nothing is ever refused (`never_refused`), what is fetched is what was submitted
-in order (`in_order_once_fresh`), the link is never stuck (`never_stuck`, `never_dead`).
-Not proved: the well-founded measure that turns "something always moves" into "the message
-arrives" (it has to bound the acknowledgement ping-pong that BTP uses as keep-alive). -/
+/-- **Delivery under a fair schedule** (liveness): for every schedule `ops` from two fresh ends and
+every message accepted by `send` at `x` (index `k` of `submitted`), every *fair* continuation
+eventually lets the other end fetch it — where a continuation `f : Nat → Op` is fair if every queue
+is drained (`deliver y` occurs infinitely often for both `y`), every pump runs after the
+acknowledgement timer has fired (`tick 15` immediately followed by `poll y`, infinitely often) and
+the applications fetch (`fetch y 1232` infinitely often). Anything else may happen in between: more
+`send`s (accepted or not), more `tick`s, `poll`s at any time, in any order.  Proved: `C18_live_holds`. -/
 def C18_live : Prop :=
   ∀ (ra rb : Bool) (ga gb : Option Nat) (ops : List Op) (f : Nat → Op), WfSched ops → (∀ i, WfOp (f i)) →
     (∀ y i, ∃ j ≥ i, f j = .deliver y) →
@@ -528,12 +525,109 @@ def C18_live : Prop :=
     ∀ (x : Side) (k : Nat), k < ((runLink (freshLink ra rb ga gb) ops).get x).submitted.length →
       ∃ n, k < ((runLink (freshLink ra rb ga gb) (ops ++ (List.range n).map f)).get x.other).fetched.length
 
-/-- **`C18_live_partial`** — what is proved of `C18_live`: in every state reachable from two fresh
-ends by any schedule, (1) every scheduler operation succeeds (except `send` of an empty / over-long
-message), so a fair continuation is never cut short by an error; (2) whenever a message is waiting
-to be sent, a `deliver`, a `fetch` or — at the latest `n` seconds later — a `poll` does something;
-(3) what has been fetched so far is a prefix of what was submitted. Missing for `C18_live`: a
-well-founded measure showing that these moves eventually carry the message across. -/
+theorem runLink_cons (l : LMon) (op : Op) (ops : List Op) : runLink l (op :: ops) = runLink (l.step1 op) ops := by
+  simp only [runLink, LMon.step1]
+  cases l.step op with
+  | ok r => rfl
+  | error e => rfl
+
+theorem runLink_append (ops1 : List Op) : ∀ (l : LMon) (ops2 : List Op),
+    runLink l (ops1 ++ ops2) = runLink (runLink l ops1) ops2 := by
+  induction ops1 with
+  | nil => intro l ops2; rfl
+  | cons op ops ih =>
+    intro l ops2
+    rw [List.cons_append, runLink_cons, runLink_cons, ih]
+
+/-- the first `n` operations of the infinite schedule `f`, run by `runLink`, give `runF` -/
+theorem runLink_range (l : LMon) (f : Nat → Op) : ∀ n, runLink l ((List.range n).map f) = runF l f n := by
+  intro n
+  induction n with
+  | zero => rfl
+  | succ n ih =>
+    rw [List.range_succ, List.map_append, runLink_append, ih]
+    show runLink (runF l f n) [f n] = (runF l f n).step1 (f n)
+    rw [runLink_cons]; rfl
+
+/-- **`C18_live` holds: every submitted message is delivered under every fair schedule.**
+From two fresh ends (any GATT MTUs / negotiation mode), after ANY schedule `ops`, for every message
+`k` accepted by `send` at `x`, and every fair continuation `f` (see `C18_live` / `Btp.Fair`), there is
+an `n` such that after `n` further operations the other end has fetched more than `k` messages — and
+by `in_order_once_fresh` the `k`-th fetched message IS the `k`-th submitted one.
+
+The measure behind it (`Lemmas/BtpFair.lean`): the handshake rank (`hsRank`, 4 … 0), then per
+message three stages — SDU still in `x`'s buffer (lexicographic: bytes still to send, then `phi` =
+1024·segments in flight towards `y` + 4·free slots of `y`'s send window + 2·segments in flight towards
+`x` + unfetched messages + `y`'s free SDU slot), segments of the message in flight (`needN`), message
+received and not fetched.  Every scheduler step leaves the link unchanged up to the clock or
+decreases the measure (`stage1_step`); stand-alone acknowledgements do not increase it: each one
+takes a slot of the sender's window, so the keep-alive ping-pong is bounded by the window sizes, not by
+time.  A link that stays unchanged under a fair schedule is quiet (empty queues, nothing to fetch,
+`x`'s window exhausted); then `y` owes an acknowledgement whose 15 s timer (`ackTimeoutSecs`, the
+`tick 15; poll y` of the fairness hypothesis; the clock of a fair schedule is unbounded) fires and
+`y`'s pump emits (`quiet_enabled`) — or both windows are exhausted with no acknowledgement travelling,
+which `never_dead` excludes.  A bounded form ("after N rounds") follows from the same measure but is
+not stated; the unbounded form below is the one the property asks for. -/
+theorem C18_live_holds : C18_live := by
+  intro ra rb ga gb ops f hw hwf hdel htp hfet x k hk
+  obtain ⟨hl, hp⟩ := phase_run ra rb ga gb ops hw
+  have hfair : Fair f := ⟨hwf, fun y i => by obtain ⟨j, h1, h2⟩ := hdel y i; exact ⟨j, h1, h2⟩,
+    fun y i => by obtain ⟨j, h1, h2⟩ := htp y i; exact ⟨j, h1, h2⟩,
+    fun y i => by obtain ⟨j, h1, h2⟩ := hfet y i; exact ⟨j, h1, h2⟩⟩
+  have h3 : 3 ≤ negWin ga gb rb := by have := negWin_ge ga gb rb; omega
+  obtain ⟨n, hn⟩ := phase_delivers h3 hl hp f hfair x k hk
+  refine ⟨n, ?_⟩
+  rw [runLink_append, runLink_range]
+  exact hn
+
+/-- a fair schedule: round robin over deliver / (tick 15; poll) / fetch at both ends -/
+def roundRobin (i : Nat) : Op :=
+  match i % 8 with
+  | 0 => .deliver .a
+  | 1 => .deliver .b
+  | 2 => .tick 15
+  | 3 => .poll .a
+  | 4 => .tick 15
+  | 5 => .poll .b
+  | 6 => .fetch .a 1232
+  | _ => .fetch .b 1232
+
+/-- Non-vacuity of the fairness hypothesis of `C18_live`: the round-robin schedule is fair. -/
+example : Fair roundRobin := by
+  have key : ∀ (i c : Nat), c < 8 → roundRobin (8 * i + c) = roundRobin c := by
+    intro i c hc
+    simp only [roundRobin, Nat.mul_add_mod, Nat.mod_eq_of_lt hc]
+  refine ⟨?_, ?_, ?_, ?_⟩
+  · intro i
+    unfold roundRobin
+    split <;> trivial
+  · intro y i
+    cases y
+    · exact ⟨8 * i + 0, by omega, key i 0 (by omega)⟩
+    · exact ⟨8 * i + 1, by omega, key i 1 (by omega)⟩
+  · intro y i
+    cases y
+    · exact ⟨8 * i + 2, by omega, key i 2 (by omega), key i 3 (by omega)⟩
+    · exact ⟨8 * i + 4, by omega, key i 4 (by omega), key i 5 (by omega)⟩
+  · intro y i
+    cases y
+    · exact ⟨8 * i + 6, by omega, key i 6 (by omega)⟩
+    · exact ⟨8 * i + 7, by omega, key i 7 (by omega)⟩
+
+/-- Non-vacuity of the conclusion: a message submitted at each end before the handshake has even
+started; four rounds of the round-robin schedule (handshake included) carry both across. -/
+example :
+    let l := runLink (freshLink false false none none)
+      ([.send .a [1, 2, 3], .send .b [9]] ++ (List.range 32).map roundRobin)
+    l.b.fetched = [([1, 2, 3], 1232)] ∧ l.a.fetched = [([9], 1232)] := by
+  decide
+
+/-- **`C18_live_partial`** — the safety side used by `C18_live_holds`, kept as one statement: in every
+state reachable from two fresh ends by any schedule, (1) every scheduler operation succeeds (except
+`send` of an empty / over-long message), so a fair continuation is never cut short by an error;
+(2) whenever a message is waiting to be sent, a `deliver`, a `fetch` or — at the latest `n` seconds
+later — a `poll` does something; (3) what has been fetched so far is a prefix of what was
+submitted. -/
 theorem C18_live_partial (ra rb : Bool) (ga gb : Option Nat) (ops : List Op) (hw : WfSched ops) :
     let l := runLink (freshLink ra rb ga gb) ops
     (∀ op, (∃ l' o, l.step op = .ok (l', o)) ∨ (l.step op = .error .invalidArgument ∧ ∃ x m, op = .send x m)) ∧
